@@ -59,5 +59,8 @@ def check(report: common.Report, prop: str):
                 print(f'DESIGN-COUNTEREXAMPLE: {cfg} violates {violated} (statement about the specification Dos.tla)')
                 print(tail)
                 raise SystemExit(2)
+    if prop in ('C04', 'C05', 'C06'):
+        from . import proof  # pylint: disable=import-outside-toplevel
+        proof.check(report, refinement=report.tier == 'thorough')
     report.set('design_model', {'module': 'Dos.tla + DosMaint.tla', 'configs': summary,
                                 'deviations_detected': [f'{c} -> {i}' for c, i in DEVIATIONS[prop]]})
